@@ -36,7 +36,7 @@ RULE = ('case = (environment or component, state, action) with its scramble / re
 ASSUMPTIONS = ['identity scans are diagnostics; the verdict is behavioural (a mutation on one side visible on the other)']
 REQUIRED = {'quick': {'purity.calls': 10000, 'alias.step_pairs': 3000, 'alias.observation': 1500, 'history.step': 3000,
                       'history.observation': 1500, 'history.shortest_path': 100, 'history.rays': 60, 'copy.checked': 800,
-                      'registry.purity': 5000, 'purity.component_calls': 3000}}
+                      'registry.purity': 5000, 'purity.component_calls': 3000, 'history.rebuild_equivalence': 500}}
 
 
 def scramble(state, rng):
@@ -205,6 +205,38 @@ def observation_experiments(ctx, env, state, label, payload, deterministic, rng)
         for y in range(len(state.grid.objects)):
             for x in range(len(state.grid.objects[0])):
                 state.grid[y, x] = twin.grid[y, x]
+
+
+def rebuild_equivalence(ctx, env, state, label, payload, deterministic):
+    """a state reached through the dynamics (its objects were updated in place on the way) and a freshly built equal
+    state must get equal answers to every deterministic question"""
+    fresh = enc.state_from_json(enc.state_to_json(state))
+    ctx.ev()
+    ctx.hit('history.rebuild_equivalence')
+    # same seed before each ask: stochastic observation functions then draw the same randomness
+    env.set_seed(5)
+    ok1, o1 = call_real(env.functional_observation, state)
+    env.set_seed(5)
+    ok2, o2 = call_real(env.functional_observation, fresh)
+    if ok1 and ok2 and enc.es(o1) != enc.es(o2):
+        ctx.violation('history', 'functional_observation.depends_on_object_history',
+                      f'{label}: a state reached through the dynamics is observed differently from a freshly built equal state '
+                      f'(same seed)', 'obs_case', payload)
+    if not deterministic:
+        return
+    for action in env.action_space.actions:
+        env.set_seed(5)
+        a = call_real(env.functional_step, state, action)
+        env.set_seed(5)
+        b = call_real(env.functional_step, fresh, action)
+        if a[0] and b[0]:
+            (n1, r1, d1), (n2, r2, d2) = a[1], b[1]
+            if (enc.es(n1), repr(r1), d1) != (enc.es(n2), repr(r2), d2):
+                ctx.violation('history', 'functional_step.depends_on_object_history',
+                              f'{label}: step({action.name}) from a state reached through the dynamics differs from the same step from a '
+                              f'freshly built equal state (reward {r1!r} vs {r2!r}, flag {d1} vs {d2}, next states equal: '
+                              f'{enc.es(n1) == enc.es(n2)})', 'step_case', dict(payload, action=action.name))
+                break
 
 
 def copy_experiments(ctx, state, rng, payload):
@@ -404,6 +436,15 @@ def run(ctx):
                 observation_experiments(ctx, env, dyndrive.copy_state(state), f'composition {comp.id}', payload, True, rng)
                 if k == 0:
                     transition_with_copy_experiments(ctx, dyndrive.copy_state(state), rng.choice(list(Action)), rng, payload)
+                # a short real history, then rebuild-equivalence on the state it reaches
+                cur = dyndrive.copy_state(state)
+                for _ in range(3):
+                    ok, res = call_real(env.functional_step, cur, workloads.policy_interactive(rng, env, cur))
+                    if not ok:
+                        break
+                    cur = res[0]
+                rebuild_equivalence(ctx, env, cur, f'composition {comp.id}', {'comp_seed': [ctx.seed, c], 'state': enc.state_to_json(cur)},
+                                    True)
             if c == 0:
                 ctx.sample('state', {'composition': comp.summary(), 'state': enc.render(state) if state else None})
         # shipped compositions along trajectories
@@ -421,6 +462,9 @@ def run(ctx):
             for t in range(ctx.pick(40, 400)):
                 action = workloads.policy_interactive(prng, env, state)
                 payload = {'config': name, 'state': enc.state_to_json(state), 'action': action.name}
+                if t % 3 == 0:
+                    rebuild_equivalence(ctx, env, state, name, payload, True)
+                    env.set_seed(ctx.seed + t)
                 twin = step_experiments(ctx, env, dyndrive.copy_state(state), action, name, payload, True, prng)
                 observation_experiments(ctx, env, dyndrive.copy_state(state), name, payload, True, prng)
                 ok, res = call_real(env.functional_step, state, action)
@@ -430,6 +474,22 @@ def run(ctx):
                 if res[2]:
                     state = env.functional_reset()
             ctx.addset('configs', name)
+        # states reached through door/box/key-rich real histories, under both occluding observation functions
+        for k in range(ctx.pick(120, 2500)):
+            rng = gen.rng_for('C03hist', ctx.seed, ctx.shard, k)
+            hstate = obsgen.history_state(rng)
+            h, w = len(hstate.grid.objects), len(hstate.grid.objects[0])
+            area = gen.obs_space_area(rng)
+            a = [[area.ymin, area.ymax], [area.xmin, area.xmax]]
+            obs_name = ['raytracing', 'partially_occluded', 'stochastic_raytracing'][k % 3]
+            env = compose.assemble(
+                (h, w), gen.GRID_TYPES, gen.COLORS, list(Action),
+                compose.build('transition', {'name': 'chain', 'transition_functions': [{'name': n} for n in workloads.TRANSITIONS]}),
+                compose.build('reward', {'name': 'reduce_sum', 'reward_functions': [{'name': 'living_reward'}, {'name': 'actuate_door'},
+                                                                                     {'name': 'bump_into_wall'}]}),
+                compose.build('terminating', {'name': 'reach_exit'}),
+                compose.build('observation', {'name': obs_name, 'area': a}), area, lambda rng=None: hstate)
+            rebuild_equivalence(ctx, env, hstate, f'history state under {obs_name}', {'state': enc.state_to_json(hstate)}, True)
         component_purity_sweep(ctx)
         shortest_path_history(ctx, gen.rng_for('C03sp', ctx.seed, ctx.shard))
         ray_history(ctx, gen.rng_for('C03ray', ctx.seed, ctx.shard))
@@ -447,6 +507,19 @@ def replay(ctx, kind, payload):
             comp = workloads.Composition(crng, force_all_actions=True)
             st = enc.state_from_json(payload['state'])
             env = comp.build(lambda rng=None: st)
+        elif 'state' in payload:
+            st0 = enc.state_from_json(payload['state'])
+            hh, ww = len(st0.grid.objects), len(st0.grid.objects[0])
+            for obs_name in ('raytracing', 'partially_occluded'):
+                area = Area((-3, 0), (-2, 2))
+                env = compose.assemble(
+                    (hh, ww), gen.GRID_TYPES, gen.COLORS, list(Action),
+                    compose.build('transition', {'name': 'chain', 'transition_functions': [{'name': n} for n in workloads.TRANSITIONS]}),
+                    compose.build('reward', {'name': 'reduce_sum', 'reward_functions': [{'name': 'living_reward'}, {'name': 'actuate_door'}]}),
+                    compose.build('terminating', {'name': 'reach_exit'}),
+                    compose.build('observation', {'name': obs_name, 'area': [[-3, 0], [-2, 2]]}), area, lambda rng=None: st0)
+                rebuild_equivalence(ctx, env, st0, 'replay', payload, True)
+            return
         else:
             shortest_path_history(ctx, rng)
             ray_history(ctx, rng)
